@@ -1,6 +1,7 @@
 package static
 
-// Driver `static` (C12): generated call trees (bytecode assembled here, one contract per code frame) over
+// Driver `static` (C12): generated call trees (bytecode assembled here; a contract may stand at several nodes of a
+// tree: it is re-entered, in particular the transaction's `to` contract below a STATICCALL) over
 // CALL / DELEGATECALL / CALLCODE / STATICCALL that reach every registered method of every registered custom
 // precompiled contract, executed as real transactions; plus every method executed directly by an EOA, and the
 // method tables regenerated from the running code.
@@ -10,6 +11,7 @@ import (
 	"encoding/hex"
 	"fmt"
 	"math/big"
+	"reflect"
 	"sort"
 	"strings"
 	"testing"
@@ -23,6 +25,7 @@ import (
 	stakingtypes "github.com/cosmos/cosmos-sdk/x/staking/types"
 	ethabi "github.com/ethereum/go-ethereum/accounts/abi"
 	"github.com/ethereum/go-ethereum/common"
+	corevm "github.com/ethereum/go-ethereum/core/vm"
 	ethtypes "github.com/ethereum/go-ethereum/core/types"
 	"github.com/stretchr/testify/require"
 
@@ -160,6 +163,19 @@ func abiOf(typ uint32) *ethabi.ABI {
 	return nil
 }
 
+// newMethod calls cpckeeper.NewCustomPrecompiledContractMethod(executor, protocol version, ...) by reflection, with zero
+// values for any further parameter: the regenerated table needs the selector, ReadOnly and RequireGas only, and a change
+// of the constructor's parameter list must not hide from the oracle what the change does to the call trees (the driver
+// would not compile, the run would end with "no failing input found").
+func newMethod(ex cpckeeper.ExtendedCustomPrecompiledContractMethodExecutorI, ver cpctypes.ProtocolCpc) corevm.CustomPrecompiledContractMethod {
+	f := reflect.ValueOf(cpckeeper.NewCustomPrecompiledContractMethod)
+	args := []reflect.Value{reflect.ValueOf(ex), reflect.ValueOf(ver)}
+	for i := len(args); i < f.Type().NumIn(); i++ {
+		args = append(args, reflect.Zero(f.Type().In(i)))
+	}
+	return f.Call(args)[0].Interface().(corevm.CustomPrecompiledContractMethod)
+}
+
 // loadContracts regenerates the method tables from the running code: exactly what NewEVM hands to the interpreter.
 func (e *env) loadContracts() {
 	ctx := e.c.QueryCtx()
@@ -176,7 +192,7 @@ func (e *env) loadContracts() {
 		}
 		a := abiOf(c.Type)
 		for _, ex := range ct.GetMethodExecutors() {
-			cm := cpckeeper.NewCustomPrecompiledContractMethod(ex, ver)
+			cm := newMethod(ex, ver)
 			m := method{RO: cm.ReadOnly, Gas: cm.RequireGas}
 			copy(m.Sel[:], cm.Method4BytesSignatures)
 			if a != nil {
@@ -364,6 +380,10 @@ type tnode struct {
 	m  *method
 	// code
 	kids []*tnode
+	same *tnode                   // stands at the address of that (earlier, in pre-order) code node: the contract is re-entered
+	slot int                      // index of acct in the pool
+	vrnt int                      // which of the programs of the contract at acct this node is (first calldata byte)
+	prog []NodeCall               // the node's program
 	acct *itutiltypes.TestAccount // where the code lives
 	ctx  *itutiltypes.TestAccount // execution context (ADDRESS) of the frame
 	gas  uint64                   // gas operand used by the parent for this call
@@ -486,14 +506,22 @@ func (e *env) allMethods() (out []struct {
 func (e *env) place(root *tnode) (uint64, bool) {
 	next := 0
 	ok := true
+	progs := make([][]*tnode, len(e.pool)) // per pool account: the nodes that stand at its address, in pre-order
 	var assign func(n *tnode, parentCtx *itutiltypes.TestAccount)
 	assign = func(n *tnode, parentCtx *itutiltypes.TestAccount) {
-		if next >= len(e.pool) {
-			ok = false
-			return
+		if n.same != nil {
+			n.slot = n.same.slot
+		} else {
+			if next >= len(e.pool) {
+				ok = false
+				return
+			}
+			n.slot = next
+			next++
 		}
-		n.acct = e.pool[next]
-		next++
+		n.acct = e.pool[n.slot]
+		n.vrnt = len(progs[n.slot])
+		progs[n.slot] = append(progs[n.slot], n)
 		if parentCtx == nil || n.op == OpCALL || n.op == OpSTATICCALL {
 			n.ctx = n.acct
 		} else {
@@ -528,18 +556,31 @@ func (e *env) place(root *tnode) (uint64, bool) {
 				nc.Target, nc.Payload, nc.Leaf, nc.Mask = k.ct.Addr, pl, true, Pow2(uint(k.id))
 			} else {
 				k.gas = build(k)
-				nc.Target = k.acct.GetEthAddress()
+				nc.Target, nc.Payload = k.acct.GetEthAddress(), []byte{byte(k.vrnt)}
 			}
 			nc.Gas = k.gas
 			need += k.gas + 25_000
 			calls = append(calls, nc)
 		}
-		e.c.SetCode(n.acct.GetEthAddress(), BuildNode(calls))
+		n.prog = calls
 		return need*66/64 + 30_000
 	}
 	need := build(root)
 	if !ok {
 		return 0, false
+	}
+	for slot, nodes := range progs {
+		switch len(nodes) {
+		case 0:
+		case 1:
+			e.c.SetCode(e.pool[slot].GetEthAddress(), BuildNode(nodes[0].prog))
+		default: // a re-entered contract: one program per node, selected by the first calldata byte (the root is program 0)
+			var vs [][]NodeCall
+			for _, nd := range nodes {
+				vs = append(vs, nd.prog)
+			}
+			e.c.SetCode(e.pool[slot].GetEthAddress(), BuildNodeVariants(vs))
+		}
 	}
 	gas := need*66/64 + 100_000
 	if gas > 36_000_000 {
@@ -580,7 +621,7 @@ func descTree(n *tnode) string {
 	for _, k := range n.kids {
 		ks = append(ks, descTree(k))
 	}
-	return s + ">code{" + strings.Join(ks, "; ") + "}"
+	return fmt.Sprintf("%s>code@%d{%s}", s, n.slot, strings.Join(ks, "; "))
 }
 
 type treeObs struct {
@@ -698,7 +739,9 @@ func TestDriverStatic(t *testing.T) {
 	side := NewSidecar("static", seed,
 		"case = one call tree executed as a real transaction (plus the same message executed through the EVM keeper under whole-store digests), "+
 			"one direct EOA call per registered method, or one regenerated method table; trees: depth <= 5 over CALL/DELEGATECALL/CALLCODE/STATICCALL, "+
-			"groups: all precompile calls under a STATICCALL (main), mixed, no STATICCALL (control); a sweep puts every registered method under five fixed shapes; "+
+			"groups: all precompile calls under a STATICCALL (main), mixed, no STATICCALL (control); a sweep puts every registered method under nine fixed shapes "+
+			"(four of them re-entrant: the transaction's `to` contract calling itself by STATICCALL, called back below a STATICCALL, lending its address to library code, A -> B -> A); "+
+			"in random trees a code node stands at the address of the root / an ancestor / an earlier node with chance 30 (re-entered contracts); "+
 			"non-trivial = tree in which a state-changing method sits under a STATICCALL that is not its own opcode (inherited flag), distinct by shape+methods")
 	cases := NewCases(dir, "From Coq Require Import List ZArith Bool.\nFrom Evm Require Import StaticCtx CorrStaticCtx.", "sc_mismatches")
 	idx := 0
@@ -792,6 +835,7 @@ func TestDriverStatic(t *testing.T) {
 
 		// ---- direct oracle (property text), independent of the model
 		inherited := false
+		reentered := false
 		allProt := true
 		offending := ""
 		var shape []string
@@ -799,7 +843,7 @@ func TestDriverStatic(t *testing.T) {
 			if !nd.leaf {
 				return
 			}
-			shape = append(shape, fmt.Sprintf("%s:%d:%s", nd.path, nd.ct.Type, nd.m.Name))
+			shape = append(shape, fmt.Sprintf("%s@%d:%d:%s", nd.path, path[len(path)-1].slot, nd.ct.Type, nd.m.Name))
 			side.Count(fmt.Sprintf("leaf:type%d:%s", nd.ct.Type, nd.m.Name))
 			side.Count("leaf_op:" + opName(nd.op))
 			side.Count(fmt.Sprintf("leaf_depth:%d", len(path)))
@@ -809,6 +853,22 @@ func TestDriverStatic(t *testing.T) {
 					side.Count("unprotected_leaf_succeeded")
 				} else {
 					side.Count("unprotected_leaf_not_in_mask")
+				}
+			}
+			if caller := path[len(path)-1]; nd.prot && !nd.m.RO && nd.op != OpSTATICCALL {
+				// who calls matters to nobody, says the property: the calling frame's address is the entry contract's ...
+				if caller.ctx == root.acct && caller != root {
+					side.Count("protected_rw_leaf_called_from_entry_contract_address")
+					reentered = true
+				} else if caller != root {
+					// ... or that of some contract that is on the call stack more than once
+					for _, anc := range path[:len(path)-1] {
+						if anc.ctx == caller.ctx {
+							side.Count("protected_rw_leaf_called_from_address_already_on_the_stack")
+							reentered = true
+							break
+						}
+					}
 				}
 			}
 			if nd.prot && !nd.m.RO {
@@ -832,6 +892,9 @@ func TestDriverStatic(t *testing.T) {
 			hit("C12/static/transaction-and-direct-execution-differ", "the same message returned different data as a transaction and through the EVM keeper", o)
 		}
 		side.Count("group:" + group)
+		if reentered {
+			side.Count("tree_with_protected_rw_leaf_called_from_reentered_contract")
+		}
 		side.Count(fmt.Sprintf("status:%v", status))
 		side.Count(fmt.Sprintf("changed:%v", changed))
 		side.Case(idx, group+"/"+strings.Join(shape, ","), inherited, o)
@@ -845,11 +908,32 @@ func TestDriverStatic(t *testing.T) {
 			side.Count("method_unknown_to_harness")
 			continue
 		}
-		for s := 0; s < 5; s++ {
+		for s := 0; s < 9; s++ {
 			fresh()
 			leaf := &tnode{leaf: true, id: 0, ct: mm.ct, m: mm.m}
 			var root *tnode
 			switch s {
+			case 5: // the transaction's `to` contract STATICCALLs itself, then calls the precompile
+				leaf.op = OpCALL
+				again := mk(OpSTATICCALL, leaf)
+				root = mk(OpCALL, again)
+				again.same = root
+			case 6: // ... is called back below a STATICCALL
+				leaf.op = OpDELEGATECALL
+				again := mk(OpCALL, leaf)
+				root = mk(OpCALL, mk(OpSTATICCALL, again))
+				again.same = root
+			case 7: // ... re-entered read-only, lends its address to library code that calls the precompile
+				leaf.op = OpCALLCODE
+				again := mk(OpSTATICCALL, mk(OpDELEGATECALL, leaf))
+				root = mk(OpCALL, again)
+				again.same = root
+			case 8: // A -> B -> A below the entry contract, the STATICCALL in between
+				leaf.op = OpCALL
+				again := mk(OpCALL, leaf)
+				a := mk(OpCALL, mk(OpSTATICCALL, mk(OpCALL, again))) // A{STATICCALL>B{CALL>A{CALL>cpc}}}
+				again.same = a
+				root = mk(OpCALL, a)
 			case 0: // direct STATICCALL
 				leaf.op = OpSTATICCALL
 				root = mk(OpCALL, leaf)
@@ -912,6 +996,26 @@ func TestDriverStatic(t *testing.T) {
 		}
 		root.op = OpCALL
 		annotate(root)
+		// re-entered contracts: a code node may stand at the address of the root (the transaction's `to` contract), of one
+		// of its ancestors (self call, A -> B -> A) or of any node visited before it
+		var visited []*tnode
+		walk(root, func(nd *tnode, path []*tnode) {
+			if nd.leaf {
+				return
+			}
+			if len(path) > 0 && r.Chance(30) {
+				switch x := r.Intn(10); {
+				case x < 5:
+					nd.same = root
+				case x < 8:
+					nd.same = path[r.Intn(len(path))]
+				default:
+					nd.same = visited[r.Intn(len(visited))]
+				}
+				side.Count("code_node_at_the_address_of_an_earlier_node")
+			}
+			visited = append(visited, nd)
+		}, nil)
 		// values: CALL carries a value only where the caller is already read-only (the opcode then aborts the calling
 		// frame; outside it would move coins, which is not a precompile effect); CALLCODE anywhere
 		var setv func(nd *tnode, ro bool)
